@@ -1,9 +1,9 @@
 package rules
 
 import (
-	"sort"
 	"go/token"
 	"go/types"
+	"sort"
 	"strings"
 
 	"golang.org/x/tools/go/ssa"
